@@ -10,9 +10,11 @@ implementation's outputs (independent of the model):
   nothing else appears anywhere;
 * at most once; batch size ≤ n; a probe with explicit ready ≥ expiry is never queued;
 * not early / not late (against the clock value when the delivering call started / finished);
-* each batch is ordered by ready time — a violation in which a probe with a ready time already in the past is
-  enqueued while that `PopMany` call is in progress (the call needs a further round, which picks it up after
-  later-ready probes) is the known finding `late-past-ready`;
+* each batch is ordered by ready time (`PopMany` sorts the items of all its rounds by queue score before it returns;
+  `Swat4.C12.batch_sorted_all`).  A violation is reported with a signature that tells the cause apart:
+  `sig=late-past-ready` when a probe with a ready time already in the past was enqueued while that `PopMany` call was in
+  progress and the call needed a further round (the former defect `C12-late-past-ready`, fixed: this is how a regression
+  of the final sort shows), `sig=batch-unsorted` otherwise;
 * the keyspace is consistent (`consistentB`).
 -/
 namespace Swat4.Drv.C12
@@ -101,7 +103,8 @@ def oracle (specs : List String) (itimeline ires idump : String) : Bool × Strin
     let fin := ts.getLastD epoch
     d.2.2.2.all fun p => decide (readyOfPayload p ≤ fin) && (match expiryOfPayload p with | none => true | some e => decide (e ≥ start))
   let consistent := match parseDump idump with | some st => st.consistentB | none => false
-  -- known-finding signature for an unsorted batch: a producer with ready < clock at its enqueue executed between two pop batches of that consumer
+  -- signature of the former defect C12-late-past-ready (regression of PopMany's final sort): a producer with ready < clock at its
+  -- enqueue executed between two pop batches of that consumer
   let latePast := unsorted.all fun d =>
     -- from the consumer's first command of the call to its last pop batch
     let first := (enumFrom 0 tl).filterMap fun (x : Nat × (String × Int)) => if x.2.1.startsWith s!"{d.1}:" then some x.1 else none
